@@ -5,7 +5,37 @@ import json, os, sys
 ROOT = os.path.dirname(os.path.dirname(os.path.abspath(__file__)))
 
 # id -> (category, technique, level text, level note, design ref)
+RNOTE = "trusts the hand-written reference semantics R (harness/props/ref.go) and reference conversions; cases R declares undetermined (invalid UTF-8 in a short cluster, unknown rune after known flags under a pass-through policy, unsettled numeric forms) are skipped and counted; declarations are reflect.StructOf types"
+
 CHECKS = {
+ "C01": ("exploration",
+         "property-based testing (rapid): generated declarations x argument vectors compared field by field with a reference semantics",
+         "Generated search over declaration x argv (all option types, nested namespaced groups, commands by tag and programmatic, mixed spellings, clusters, repeated occurrences). After every successful parse each option field, the callback log and every untagged field are compared with the reference semantics R. Holds on everything explored; no proof of absence.",
+         RNOTE, "DESIGN.md §4 C01"),
+ "C03": ("exploration",
+         "property-based testing (rapid): reference-model comparison plus model-free subsequence/conservation invariant over remaining arguments",
+         "Generated search over argv rich in pass-through tokens under all 8 combinations of PassDoubleDash/PassAfterNonOption/IgnoreUnknown; remaining args, positional fields and the args seen by Execute/CommandHandler are compared with R, and - when positionals are strings - a model-free subsequence + token-count conservation check is applied.",
+         RNOTE, "DESIGN.md §4 C03"),
+ "C06": ("exploration",
+         "property-based testing (rapid): reference missing-set vs names parsed from ErrRequired messages",
+         "Generated search over required marks at every tree level, positional count constraints and argv/env/default supply subsets; ErrRequired must occur exactly when R finds something missing, name exactly R's set, and nothing may be executed.",
+         RNOTE, "DESIGN.md §4 C06"),
+ "C07": ("exploration",
+         "property-based testing (rapid): near-miss unknown option injection under three policies against reference semantics and a handler call log",
+         "Generated search over unknown option tokens (near misses, sibling/not-yet-named commands' options) at random positions under policies none / IgnoreUnknown / handler; error naming, verbatim pass-through with continued parsing, and the exact handler call log (name, inline argument, unconsumed args, returned slice parsed next) are compared with R.",
+         RNOTE, "DESIGN.md §4 C07"),
+ "C08": ("exploration",
+         "property-based testing (rapid): reference active-chain/scoping comparison plus metamorphic alias and option-commutation relations on the real parser",
+         "Generated search over command trees (depth <= 4, aliases, optional marks, clashes, tag/programmatic) and interleaved argv; active chain, scoped values and command errors compared with R; two model-free metamorphic relations (alias<->name, ancestor option moved across a command word) checked on the real parser.",
+         RNOTE, "DESIGN.md §4 C08"),
+ "C09": ("fault_enumeration",
+         "fault injection enumerated over every position of generated valid vectors (rapid-generated bases), execution-log invariant",
+         "For every generated base vector that R accepts, every fault kind is injected at every position (and every command/option/positional token is removed or replaced); a rejected variant must leave the Execute and CommandHandler logs empty, an accepted one must show exactly one invocation of the innermost executable command with the returned args and its error unchanged; completion mode must execute nothing. Enumeration is complete per base within the listed fault kinds; bases are sampled.",
+         RNOTE, "DESIGN.md §4 C09"),
+ "C10": ("exploration",
+         "property-based testing (rapid): positional binding compared with a reference semantics",
+         "Generated search over positional layouts on parser and commands and argv interleaving typed tokens, options and the terminator; every positional field and the overflow into remaining args are compared with R.",
+         RNOTE, "DESIGN.md §4 C10"),
  "C20": ("exploration",
          "property-based testing (rapid): generated command-name sets x words against a reference rune Levenshtein oracle and a parsed error message",
          "Generated search over command-name sets (visible/hidden, multi-byte, tag and programmatic declaration) and words (random, 1-3 edits of a name, empty argv); every ErrUnknownCommand/ErrCommandRequired message is parsed and compared with an independent edit-distance computation: suggestion must be a nearest visible command within the threshold, otherwise the sorted visible list. Holds on everything explored; not a proof.",
